@@ -114,3 +114,21 @@ def run(rep, program: Program, tier: str) -> None:
 
     rep.isolate(c11.rule_r1, rep, program, prop=PROP, rule="R8")
     rep.isolate(c11.rule_r2, rep, program, prop=PROP, rule="R9")
+    # the Hamiltonian / its flows are evaluated through metric.inv, .sqrt, .log_abs_det of whatever matrix object the
+    # metric is: a cache forwarded to a scaled / transposed / inverted matrix must satisfy its defining identity there,
+    # or those members describe a different matrix from the one whose array and eigendecomposition the system uses
+    # (shared with C10-R5)
+    from . import c10
+
+    _n0 = len(rep.rules)
+    _r1, _r4, _r5c = c10.rule_algebra(rep, program, relevant=lambda cname, member: True)
+    rep.rules = rep.rules[:_n0]
+    _r = rep.rule("R10", "caches forwarded to derived matrices (capacitance, triangular factor, eigendecomposition, LU) satisfy their defining identity on the new arguments", floor=20)
+    _r.instances = _r.exercised = _r5c.instances
+    _r.samples = _r5c.samples
+    for _fd in _r5c.findings:
+        _fd.rule, _fd.prop = "R10", PROP
+        _r.findings.append(_fd)
+    rep.extra.pop("members_outside_algebra", None)
+    # the forces of a step are read from the state cache: they must belong to the system doing the step (shared with C09-R6)
+    rep.isolate(c09.rule_r6, rep, program, prop=PROP, rule="R11")
